@@ -145,7 +145,7 @@ def run_lint(c, tier):
                                 {"definition": e, "struct": it})
         # (3) binding: the wrapper's signature is the one the specification predicts (model drift otherwise)
         for it in tbl:
-            if it["kind"] == "fn" and it["name"] == "cglue_wrapped_m":
+            if it["kind"] == "fn" and it["name"] == "cglue_wrapped_m" and e.get("sig"):
                 if it["abi"] != "C":
                     c.violation("vtable entry of definition %s is not extern \"C\" (abi %s)" % (json.dumps(e["d"]), it["abi"]), {"definition": e, "fn": it})
                 got = [norm(a[1]) for a in it["args"]]
